@@ -11,4 +11,4 @@ Definition c07_unproved : list string :=
   [ "FindResponse"; "FindUniqueResponse"; "LockingAndxRequest"; 
     "NegotiateResponse"; "OpenAndxRequest"; 
     "SessionSetupAndxRequest"; "SessionSetupAndxResponse"; "SetInformationRequest";
-    "TransactionRequest"; "WriteAndCloseRequest"; "WriteRequest" ].
+    "WriteRequest" ].
